@@ -502,6 +502,12 @@ type vC06ProvSc struct {
 	// SilentNearest > 0: the that many simulated peers nearest to the key never answer FIND_NODE (10 s read
 	// timeout each), so that with alpha = 1 the lookup lasts longer than a minute (unit optslow)
 	SilentNearest int
+	// Deadline > 0 (classic provide only): the caller's context carries this deadline, and the simulated peers time
+	// their FIND_NODE answers so that the lookup succeeds AimDelta before the inner deadline Provide derives from
+	// it (deadline minus the 10 % / 1 s it reserves for the final ADD_PROVIDER round); every healthy recipient then
+	// takes AimDelta + half the reserve to accept its ADD_PROVIDER: inside the caller's deadline, past the inner one
+	Deadline time.Duration
+	AimDelta time.Duration
 }
 
 func vC06GenProv(c *vh.Case, optim bool) vC06ProvSc {
@@ -519,6 +525,11 @@ func vC06GenProv(c *vh.Case, optim bool) vC06ProvSc {
 	if !optim && r.Intn(12) == 0 {
 		sc.CancelAt = time.Duration(1+r.Intn(3*sc.MaxDelay+20)) * time.Millisecond
 	}
+	if !optim && sc.Broadcast && sc.CancelAt == 0 && r.Intn(5) == 0 {
+		sc.Deadline = []time.Duration{4 * time.Second, 6 * time.Second, 9 * time.Second, 15 * time.Second, 30 * time.Second}[r.Intn(5)]
+		sc.AimDelta = 100*time.Millisecond + time.Duration(r.Int63n(int64(vC06Reserve(sc.Deadline)/2-100*time.Millisecond)))
+		sc.FailFrac = 0 // a silent peer in the lookup costs a 10 s read timeout: the lookup would not end where it is aimed
+	}
 	if optim {
 		if sc.Cfg.N < sc.Cfg.K+2 {
 			sc.Cfg.N = sc.Cfg.K + 2 + r.Intn(40)
@@ -533,6 +544,14 @@ func vC06GenProv(c *vh.Case, optim bool) vC06ProvSc {
 		}
 	}
 	return sc
+}
+
+// vC06Reserve is the part of the caller's deadline classicProvide keeps back for the final ADD_PROVIDER round.
+func vC06Reserve(d time.Duration) time.Duration {
+	if d < 10*time.Second {
+		return d / 10
+	}
+	return time.Second
 }
 
 func vC06AddrSet(as []ma.Multiaddr) []string {
@@ -661,6 +680,40 @@ func vC06RunProvide(t *testing.T, c *vh.Case, sc vC06ProvSc) {
 	// optimistic cases the caller cancels it as soon as Provide has returned ("defer cancel()")
 	pctx, pcancel := context.WithCancel(lctx)
 	defer pcancel()
+	if sc.Deadline > 0 {
+		aim := start.Add(sc.Deadline - vC06Reserve(sc.Deadline) - sc.AimDelta)
+		putLat := sc.AimDelta + vC06Reserve(sc.Deadline)/2
+		for _, id := range n.IDs {
+			sp := n.S.Peer(id)
+			orig := sp.Script
+			if orig == nil {
+				continue
+			}
+			sp.Script = func(cnt int, req *pb.Message) vsim.Reply {
+				rep := orig(cnt, req)
+				if req == nil {
+					return rep
+				}
+				switch req.GetType() {
+				case pb.Message_FIND_NODE:
+					rep.Delay = time.Millisecond
+					if d := time.Until(aim); d > rep.Delay {
+						rep.Delay = d
+					}
+				case pb.Message_ADD_PROVIDER:
+					if rep.Err == nil && !rep.Silent && rep.Delay < time.Second {
+						rep.Delay = putLat
+					}
+				}
+				return rep
+			}
+		}
+		var dcancel context.CancelFunc
+		pctx, dcancel = context.WithDeadline(pctx, start.Add(sc.Deadline))
+		defer dcancel()
+		c.Set("deadline", sc.Deadline.String())
+		c.Set("lookup_aimed_before_inner_deadline_by", sc.AimDelta.String())
+	}
 	perr := n.D.Provide(pctx, cidKey, sc.Broadcast)
 	end := time.Now()
 	cancelled := ctx.Err() != nil
@@ -746,8 +799,16 @@ func vC06RunProvide(t *testing.T, c *vh.Case, sc vC06ProvSc) {
 	}
 	c.Obs("recipients", len(d.R))
 	c.Obs("failing_recipients", failing)
+	if sc.Deadline > 0 {
+		c.Obs("deadline_cases_lookup_succeeded_inside_inner_deadline", 1)
+		c.ObsMax("deadline_lookup_end_before_inner_deadline_ms_max", int((sc.Deadline - vC06Reserve(sc.Deadline) - d.TermVT.Sub(start)).Milliseconds()))
+	}
 	if !sc.Optim {
-		if perr != nil {
+		if sc.Deadline > 0 && errors.Is(perr, context.DeadlineExceeded) && end.Sub(start) >= sc.Deadline {
+			// the caller's own deadline passed while a hanging recipient was waited for: the error is the caller's
+			// deadline; the healthy recipients were served before it and are judged below
+			c.Obs("deadline_reached_waiting_for_a_hanging_recipient", 1)
+		} else if perr != nil {
 			// an error although the lookup terminated un-cancelled: only when it returned nobody
 			c.Obs("provide_error", 1)
 			if !c.Check(len(d.R) == 0, "provide-error-only-without-recipients", "Provide returned %v although its closest-peers lookup succeeded and returned %v", perr, n.Names(d.R)) {
